@@ -49,6 +49,11 @@ CLAIMED = {
    text="Every run of the C01 corpus must end in an outcome of the specification's status machine: a value or one of the six documented run-time errors, and the one the specification predicts. Panics (observed through catch_unwind, with message) and parameter names that do not resolve at function entry are violations; fuel/depth budget exhaustion is inconclusive. Function values defined by the programs are called with boundary inhabitants ([] for arrays, every union member).",
    design_ref="§3.6, §6 C02",
    note="aborts (stack overflow) are outside the claim; bounded by the programs generated"),
+ "C05": dict(
+   technique="the TLA+ specification is a function (unions are sets; TLC checks FoldsOrderInsensitive on Types.tla); conformance by trace validation: repeated runs (K per process x 3 processes) of every program are consumed by Trace_Det.tla, whose write-once map program -> outcome rejects a differing outcome; type level: independently built instances of every type of the MC_Types universe compared with each other and with the specification's answers",
+   text="Type level: all 522 types of the universe are built 12+ times each through constructors and Type::from_str with rotated member/field orders; equal instances must compare equal, hash alike (HashSet of them has one element, T | T' = T), match each other and answer all 22 queries as the set-based specification does. Program level: generated programs, the iterator suite and hand-written union/struct programs are parsed and run from scratch K times in each of three processes; every run's canonical outcome (accepted?, static type, value or error, log) is one event of the trace specification, which accepts a run only if it repeats the outcome first seen for that program.",
+   design_ref="§3.1, §6 C05",
+   note="a 2-way order dependence escapes detection with probability 2^-(3K-1) per program; only printed order may vary (outcomes are canonicalised by sorting union members and struct fields)"),
 }
 
 NOT_YET = {}
